@@ -572,6 +572,14 @@ impl GroupOrderElement {
     }
 
     pub fn from_string(str: &str) -> ClResult<GroupOrderElement> {
+        // BIG::from_hex panics on anything but hexadecimal digits, and the reduction below is
+        // only correct (and only terminates) for numbers well inside the 288 usable bits of a
+        // BIG: accept at most 71 digits (284 bits), which covers every encoding produced by
+        // to_string (64 digits, possibly with leading zeros)
+        const MAX_HEX_LEN: usize = 2 * MODBYTES + 7;
+        if str.is_empty() || str.len() > MAX_HEX_LEN || validate_hex(str.as_bytes()).is_none() {
+            return Err(err_msg!("Invalid GroupOrderElement value"));
+        }
         let mut bn = BIG::from_hex(str.to_string());
         bn.rmod(&ORDER);
         bn.norm();
